@@ -2,8 +2,9 @@
 //!
 //! Two worlds, chosen by the family prefix:
 //!
-//! * `height/...` ([`height::HeightWorld`]): one graph shape (map chain, bind nest around map
-//!   chains) on a state limited with `new_with_height(N)` and/or `set_max_height_allowed(M)`,
+//! * `height/...` ([`height::HeightWorld`]): one graph shape (map chain, map chain with a
+//!   two-input node on top, bind nest around map chains) on a state limited with
+//!   `new_with_height(N)` and/or `set_max_height_allowed(M)`,
 //!   run in lock-step with a *twin*: the same graph on an unlimited `IncrState::new()`. The
 //!   height a history needs is read from the twin (`verif_max_height_in_use`, plus the
 //!   `seen=` field of its dump to detect transient heights); no height convention is baked in.
@@ -36,7 +37,10 @@
 //! in the digest). The drop phase after an expected panic costs one extra action
 //! (`Drop(order)`), so depth d judges drops after panics at depth <= d-1.
 //!
-//! Rules: C19.accepts, C19.rejects, C19.message, C19.when, C19.shrink_panics, C19.cycle,
+//! Rules: C19.accepts, C19.rejects, C19.message, C19.when, C19.shrink_panics,
+//! C19.shrink_below_in_use (a set_max_height_allowed below the greatest height in use returned
+//! normally; a refused call must also leave the state unchanged - judged by the rules above
+//! on the rest of the history, signatures then carry `+refused-setmax`), C19.cycle,
 //! C19.cross_state, C19.nested_stabilise, C19.drop_after_panic, C19.panic (panic in a
 //! well-formed, unlimited part of a history, including the twin).
 //!
